@@ -293,7 +293,7 @@ def _alarm(signum, frame):
     raise CallTimeout()
 
 
-def outcome_of(fn, conv=alpha, timeout=2):
+def outcome_of(fn, conv=alpha, timeout=4):
     """run fn() on the real library; encode what happened (normal AND error path)"""
     S = sm()
     old = signal.signal(signal.SIGALRM, _alarm)
